@@ -7,4 +7,5 @@ INVARIANT Full
 INVARIANT Same
 INVARIANT PadFits
 INVARIANT Helpers
+INVARIANT FilterAxes
 CHECK_DEADLOCK FALSE
